@@ -21,6 +21,7 @@ type Item struct {
 	Gate    string // a named gate: OnGate is called when the reader reaches it (before later items)
 	Hold    bool   // with Gate: block the reader until Release(gate) (or Close / deadline)
 	Packet  int    // server packet index this item belongs to (for evidence)
+	Final   bool   // the packet that ends the response (EndOfStream / terminal exception)
 }
 
 // Event is one recorded call on the connection.
@@ -65,6 +66,8 @@ type Conn struct {
 	queue  []Item
 	qoff   int // offset into queue[0].Data
 	closed bool
+
+	finalStarted bool
 	rArmed bool
 	rDL    time.Time
 	wArmed bool
@@ -78,6 +81,9 @@ type Conn struct {
 	WriteErr       error
 	// OnClose is called once (without the lock) when the connection is first closed.
 	OnClose func()
+	// NoCoalesce: deliver at most one queued item per Read (the default is to hand out bytes
+	// that are queued back to back together, like a socket).
+	NoCoalesce bool
 	// CloseDelay makes Close take that long before the connection counts as closed.
 	CloseDelay time.Duration
 	// CloseErr is returned by the first Close (the connection is closed all the same).
@@ -207,6 +213,9 @@ func (c *Conn) PushFront(items ...Item) {
 	c.cond.Broadcast()
 }
 
+// FinalStarted: has the first byte of the response's final packet been handed to the client?
+func (c *Conn) FinalStarted() bool { c.mu.Lock(); defer c.mu.Unlock(); return c.finalStarted }
+
 // Delivered returns the number of server bytes handed to the client so far.
 func (c *Conn) Delivered() int64 { c.mu.Lock(); defer c.mu.Unlock(); return c.delivered }
 
@@ -302,6 +311,17 @@ func (c *Conn) Read(p []byte) (int, error) {
 				c.qoff = 0
 				continue
 			}
+			// bytes that are queued back to back arrive together, as on a socket: one Read may
+			// return the tail of a packet and the beginning of the next ones
+			if !c.NoCoalesce {
+				for k := 1; k < len(c.queue) && avail < len(p); k++ {
+					nx := &c.queue[k]
+					if nx.Gate != "" || nx.Timeout || nx.EOF || nx.Reset {
+						break
+					}
+					avail += len(nx.Data)
+				}
+			}
 			n := avail
 			if n > len(p) {
 				n = len(p)
@@ -335,16 +355,23 @@ func (c *Conn) Read(p []byte) (int, error) {
 					n = m
 				}
 			}
-			copy(p, it.Data[c.qoff:c.qoff+n])
+			for done := 0; done < n; {
+				it := &c.queue[0]
+				if it.Final {
+					c.finalStarted = true
+				}
+				k := copy(p[done:n], it.Data[c.qoff:])
+				c.qoff += k
+				done += k
+				if c.qoff == len(it.Data) {
+					c.queue = c.queue[1:]
+					c.qoff = 0
+				}
+			}
 			if c.CorruptAt >= c.delivered && c.CorruptAt < c.delivered+int64(n) {
 				p[c.CorruptAt-c.delivered] ^= c.CorruptMask
 			}
-			c.qoff += n
 			c.delivered += int64(n)
-			if c.qoff == len(it.Data) {
-				c.queue = c.queue[1:]
-				c.qoff = 0
-			}
 			c.rec(Event{Op: "read", N: n})
 			c.mu.Unlock()
 			return n, nil
